@@ -410,7 +410,7 @@ impl<'w> DocsRun<'w> {
     }
 }
 
-pub fn gen_history(r: &mut Rng, t: &DocTable, len: usize, file: bool) -> Vec<Value> {
+pub fn gen_history(r: &mut Rng, t: &DocTable, len: usize, file: bool, plant: bool) -> Vec<Value> {
     let mut ops = vec![];
     let real = t.real();
     let n = t.n();
@@ -433,7 +433,7 @@ pub fn gen_history(r: &mut Rng, t: &DocTable, len: usize, file: bool) -> Vec<Val
         }
     }
     // file stores: sometimes the synthetic neighbour documents (ids ..FE, ..FF, carry successor, all-0xFF) hold entries
-    if file && r.chance(1, 2) {
+    if plant && file && r.chance(1, 2) {
         let synth: Vec<usize> = (1..=n).filter(|d| !real.contains(d)).collect();
         for (i, d) in synth.iter().enumerate() {
             if r.chance(2, 3) {
@@ -523,7 +523,7 @@ pub fn gen_peer_history(r: &mut Rng, t: &DocTable, len: usize, file: bool) -> Ve
     ops
 }
 
-pub fn run(w: &World, seed: u64, rng: &mut Rng, schedules: Vec<Value>, n: usize, dir: &Path, trace: &mut Trace, sum: &mut Summary) {
+pub fn run(w: &World, seed: u64, rng: &mut Rng, schedules: Vec<Value>, n: usize, plant: bool, dir: &Path, trace: &mut Trace, sum: &mut Summary) {
     let rt = tokio::runtime::Builder::new_current_thread().enable_all().build().unwrap();
     let t = DocTable::new(w);
     let mut hist: Vec<(Vec<Value>, bool)> = schedules
@@ -537,7 +537,7 @@ pub fn run(w: &World, seed: u64, rng: &mut Rng, schedules: Vec<Value>, n: usize,
         if i % 4 == 3 {
             hist.push((gen_peer_history(rng, &t, 40, file), file));
         } else {
-            hist.push((gen_history(rng, &t, len, file), file));
+            hist.push((gen_history(rng, &t, len, file, plant), file));
         }
     }
     for (i, (ops, file)) in hist.iter().enumerate() {
